@@ -831,6 +831,14 @@ impl Constraint {
                     (((ax - bx).powi(2) + (ay - by).powi(2)).sqrt() - (ar - br).abs()).abs()
                         < (ar + br - ((ax - bx).powi(2) + (ay - by).powi(2)).sqrt()).abs();
 
+                // The derivatives with respect to the centres are the unit vector between them:
+                // undefined (0 * inf = NaN) when the centres coincide. As for `Distance`, such a
+                // configuration is degenerate and contributes no row.
+                if ((ax - bx).powi(2) + (ay - by).powi(2)).sqrt() < EPSILON {
+                    *degenerate = true;
+                    return;
+                }
+
                 // Evaluate residuals for both internal and external tangency
                 // See https://github.com/KittyCAD/ezpz-sympy/pull/1
                 let pd_ax = (-ax + bx) * ((ax - bx).powi(2) + (ay - by).powi(2)).sqrt().recip();
